@@ -740,6 +740,48 @@ def integer_spelling_twin(chk, rng):
         chk.side_check("integer spelling twin: order 3.0 runs like order 3 for %d interpolators" % compared, True)
 
 
+def high_order_twin(chk):
+    """Configuration twin on shipped data: an interpolation order the method admits -- every sampled volume a node (krogh, order = number of
+    volumes) -- with the packaged diopside inputs and settings (only NT reduced).  Every isothermal modulus must be finite on the whole grid."""
+    import shutil
+    import tempfile
+    import yaml
+    import logging
+    from cij.core.calculator import Calculator
+    src = os.path.join(os.environ.get("CIJ_REPO", "/repo"), "examples", "diopside")
+    d = tempfile.mkdtemp(prefix="c12ho_")
+    try:
+        for f in ("input01", "input02"):
+            shutil.copy(os.path.join(src, f), d)
+        cfg = yaml.safe_load(open(os.path.join(src, "settings.yaml")))
+        cfg["qha"]["settings"].update(NT=3, DT=500, DT_SAMPLE=500)
+        nvol = sum(1 for l in open(os.path.join(src, "input01")) if l.lstrip().startswith("P="))
+        cfg["elast"]["settings"]["mode_gamma"] = {"interpolator": "krogh", "order": nvol}
+        with open(os.path.join(d, "settings.yaml"), "w") as fp:
+            yaml.safe_dump(cfg, fp)
+        logging.disable(logging.CRITICAL)
+        with warnings.catch_warnings(), numpy.errstate(all="ignore"):
+            warnings.simplefilter("ignore")
+            calc = Calculator(os.path.join(d, "settings.yaml"))
+            bad = {("c%d%d" % k.v): int((~numpy.isfinite(numpy.asarray(v))).sum()) for k, v in calc.modulus_isothermal.items()}
+            n_inf = int(numpy.isinf(numpy.asarray(calc.freq_array)).sum())
+            shape = numpy.asarray(next(iter(calc.modulus_isothermal.values()))).shape
+    except Exception as e:
+        chk.note("high-order twin: run failed (%s: %s)" % (type(e).__name__, str(e)[:80]))
+        return
+    finally:
+        logging.disable(logging.NOTSET)
+        shutil.rmtree(d, ignore_errors=True)
+    worst = max(bad.values()) if bad else 0
+    if worst:
+        chk.violation("high-order-interpolant:non-finite", "examples/diopside with its packaged settings and `mode_gamma: {interpolator: krogh, order: %d}` (every one of the %d "
+                      "volumes a node -- an order the method admits): %d interpolated frequencies on the volume grid are +inf and every isothermal modulus is NaN at %d of "
+                      "the %d x %d grid points (the degree-%d polynomial in ln V overflows exp() on the margin the volume_ratio adds)" % (
+                          nvol, nvol, n_inf, worst, shape[0], shape[1], nvol - 1), dict(interpolator="krogh", order=nvol))
+    else:
+        chk.side_check("high-order twin: diopside with krogh, order = number of volumes: all isothermal moduli finite", True)
+
+
 def realness(chk, rng):
     """Concrete (all 15 keys): the eigen-frame the real class computes is a real array (dtype), as is the rotated strain."""
     import cij.core.phonon_contribution.shear as sh
@@ -782,6 +824,7 @@ def main():
     grid_settings_completion(chk, tier, rng)
     omitted_settings_completion(chk, tier, rng)
     integer_spelling_twin(chk, rng)
+    high_order_twin(chk)
     realness(chk, rng)
     chk.bound(omega_cm1=[W_LO, W_HI], T_K=[T_LO, T_HI], fp="IEEE binary64, round-nearest-even", solver_timeout_s=120)
     for f in EXP_FACTS:
